@@ -460,7 +460,7 @@ class C18(Prop):
                     cands.append(dict(c, steps=st[:i] + [["C", s[1], s[2][:j] + s[2][j + 1:]]] + st[i + 1:], renders=None))
             if s[0] == "B" and s[1] > 2:
                 cands.append(dict(c, steps=st[:i] + [["B", 2, s[2], s[3]]] + st[i + 1:], renders=None))
-        return cands
+        return cands[:40]
 
 
 PROP = C18()
